@@ -8,7 +8,7 @@ PRELUDE = programs.PRELUDE + "impl Marker for ::unimock::Unimock {}\n"
 def render(case, c, seed):
     p = dict(c["prog"])
     is_trait = p["mode"] == "trait"
-    pr = programs.Prog(case, {**{k: v for k, v in p.items() if k != "stamp"}, "opt": "mock", "mode": ("fn" if is_trait else p["mode"])}, c["leaves"], seed)
+    pr = programs.Prog(case, {**{k: v for k, v in p.items() if k not in ("stamp", "cfg")}, "opt": "mock", "mode": ("fn" if is_trait else p["mode"])}, c["leaves"], seed)
     is_async = p["async"]
     nparams = len(p["params"])
     if is_trait:
@@ -22,6 +22,10 @@ def render(case, c, seed):
         item = f"#[::entrait::entrait_export(mock_api = Mk, unimock)]\npub trait T {{\n{methods}\n}}\n"
     else:
         item = pr.item_text()
+        if p.get("cfg"):
+            # every function of the module is guarded by an enabled cfg
+            import re
+            item = re.sub(r"(?m)^(    )(pub (?:async )?fn f\d)", r"\1#[cfg(all())] \2", item)
         if p.get("stamp"):
             import re
             m = re.match(r"(?s)(#\[[^\n]*\])\n(async )?fn f1\((.*?)\) -> String (\{.*\})\n$", item)
